@@ -412,11 +412,15 @@ Section ChainFacts.
     (forall d', supply (led (st xs')) d' = supply (led (st xs)) d') /\
     (forall d', pool_of xs' d' = pool_of xs d' + amt_of (params xs) d') /\
     params xs' = params xs /\
-    (forall d', d' <> d -> admin_rec (st xs') d' = admin_rec (st xs) d' /\ meta_of (st xs') d' = meta_of (st xs) d').
+    (forall d', d' <> d -> admin_rec (st xs') d' = admin_rec (st xs) d' /\ meta_of (st xs') d' = meta_of (st xs) d') /\
+    deconstruct (addr_of c) d = Some (ct, sub) /\ index xs' = idx_add (index xs) (str_of ct) d.
   Proof.
     unfold perform, Chain.perform. intros H.
     destruct (deliver _ (st xs) (MCreate (str_of ct) sub)) as [s1 [d1|e1]] eqn:D; [|discriminate].
-    destruct (create_in_own_namespace _ _ _ _ _ _ D) as (Hd & _ & _ & Hm & Hm1 & Ha1).
+    destruct (create_in_own_namespace _ _ _ _ _ _ D) as (Hd & _ & (a0 & Ha0 & Hdec) & Hm & Hm1 & Ha1).
+    change (addr_of (Chain.cfg_at c xs) (str_of ct)) with (addr_of c (str_of ct)) in Ha0.
+    rewrite str_of_parses in Ha0. injection Ha0 as <-.
+    change (addr_of (Chain.cfg_at c xs)) with (addr_of c) in Hdec.
     destruct (create_fee_spec _ _ _ _ _ _ D) as (a & Ha & B & S).
     destruct (create_spec _ _ _ _ _ _ D) as (_ & _ & _ & _ & _ & _ & _ & _ & _ & MM & AA).
     change (addr_of (Chain.cfg_at c xs) (str_of ct)) with (addr_of c (str_of ct)) in Ha.
@@ -434,10 +438,12 @@ Section ChainFacts.
               (forall d', supply (led (st xs')) d' = supply (led (st xs)) d') /\
               (forall d', pool_of xs' d' = pool_of xs d' + amt_of (params xs) d') /\
               params xs' = params xs /\
-              (forall d', d' <> d -> admin_rec (st xs') d' = admin_rec (st xs) d' /\ meta_of (st xs') d' = meta_of (st xs) d')).
+              (forall d', d' <> d -> admin_rec (st xs') d' = admin_rec (st xs) d' /\ meta_of (st xs') d' = meta_of (st xs) d') /\
+              deconstruct (addr_of c) d = Some (ct, sub) /\ index xs' = idx_add (index xs) (str_of ct) d).
     { intros s2 L A2 M2 O2 -> ->. simpl. rewrite L.
       split; [exact Hd|]. split; [exact Hm|]. split; [exact A2|]. split; [exact M2|]. split; [apply Idx|].
       split; [exact B|]. split; [exact S|]. split; [intros d'; apply pool_add_spec|]. split; [reflexivity|].
+      split; [|split; [exact Hdec|reflexivity]].
       intros d' N. destruct (O2 d' N) as [O3 O4]. rewrite O3, O4, MM, AA.
       destruct (String.eqb d' d1) eqn:E; [apply String.eqb_eq in E; contradiction|auto]. }
     destruct md as [[[b v] t]|].
@@ -749,7 +755,7 @@ Section XHist2.
       destruct (Chain.perform c str_of xs ct w) as [xs' [r|e]] eqn:P; cbn [fst].
       2:{ apply perform_err in P. subst. exact M. }
       destruct w as [sub md|d0 x to|d0 x from|d0 na|d0 base valid tag].
-      + destruct (wasm_create_effect _ _ str_of_parses _ _ _ _ _ _ P) as (_ & _ & _ & M1 & _ & _ & _ & _ & _ & O).
+      + destruct (wasm_create_effect _ _ str_of_parses _ _ _ _ _ _ P) as (_ & _ & _ & M1 & _ & _ & _ & _ & _ & O & _).
         destruct (string_dec d r) as [->|N]; [exact M1|]. rewrite (proj2 (O d N)). exact M.
       + destruct (wasm_mint_effect _ _ addr_of_empty str_of_parses _ _ _ _ _ _ _ P) as (rc & s1 & _ & _ & _ & _ & _ & _ & _ & E & _).
         unfold meta_of. rewrite E. exact M.
@@ -851,3 +857,411 @@ Section XHist2.
       exact (wasm_only_admin _ _ addr_of_empty str_of_parses _ _ _ _ _ _ H Pw).
   Qed.
 End XHist2.
+
+(** ---- the index invariant and the genesis round trip ---- *)
+Section Genesis.
+  Variable c : cfg.
+  Variable str_of : acct -> string.
+  Variable authority : string.
+  Hypothesis addr_of_empty : addr_of c EmptyString = None.
+  Hypothesis str_of_parses : forall a, addr_of c (str_of a) = Some a.
+
+  Let xstep_out := xstep_out c str_of authority.
+  Let xstep := xstep c str_of authority.
+  Let xrun := xrun c str_of authority.
+
+  (** what the factory keeps true of its own store (next to [wf]): every admin record is indexed,
+      every index entry is a factory denom whose creator segment parses to the account the entry's
+      creator string parses to, and stored admins are "" or addresses *)
+  Definition xwf (xs : xstate) : Prop :=
+    wf (st xs) /\
+    (forall d, admin_rec (st xs) d <> None -> exists cr, In (cr, d) (index xs)) /\
+    (forall cr d, In (cr, d) (index xs) ->
+       admin_rec (st xs) d <> None /\
+       exists a sub, deconstruct (addr_of c) d = Some (a, sub) /\ addr_of c cr = Some a) /\
+    (forall d a, admin_rec (st xs) d = Some a -> a = EmptyString \/ exists acc, addr_of c a = Some acc).
+
+  Lemma xwf_empty f : xwf (empty_xstate f).
+  Proof.
+    split; [apply wf_empty|]. split; [|split].
+    - intros d H. exfalso. apply H. reflexivity.
+    - intros cr d [].
+    - intros d a H. discriminate.
+  Qed.
+
+  Definition meta_mono (xs xs' : xstate) : Prop :=
+    forall d, meta_of (st xs) d <> None -> meta_of (st xs') d <> None.
+
+  Lemma xwf_same xs xs' : xwf xs -> meta_mono xs xs' ->
+    (forall d, admin_rec (st xs') d = admin_rec (st xs) d) -> index xs' = index xs -> xwf xs'.
+  Proof.
+    intros (W & I2 & I3 & I4) MM A IX. split; [|split; [|split]].
+    - intros d H. apply MM, W. rewrite <- A. exact H.
+    - intros d H. rewrite IX. apply I2. rewrite <- A. exact H.
+    - intros cr d H. rewrite IX in H. rewrite A. apply I3, H.
+    - intros d a H. rewrite A in H. eapply I4, H.
+  Qed.
+
+  Lemma xwf_create xs xs' cr d a sub : xwf xs -> meta_mono xs xs' ->
+    meta_of (st xs') d <> None ->
+    deconstruct (addr_of c) d = Some (a, sub) -> addr_of c cr = Some a ->
+    (forall d', admin_rec (st xs') d' = if String.eqb d' d then Some cr else admin_rec (st xs) d') ->
+    index xs' = idx_add (index xs) cr d -> xwf xs'.
+  Proof.
+    intros (W & I2 & I3 & I4) MM M1 D Ha A IX. split; [|split; [|split]].
+    - intros d' H. rewrite A in H. destruct (String.eqb d' d) eqn:E.
+      + apply String.eqb_eq in E. subst. exact M1.
+      + apply MM, W, H.
+    - intros d' H. rewrite A in H. rewrite IX. destruct (String.eqb d' d) eqn:E.
+      + apply String.eqb_eq in E. subst. exists cr. apply idx_add_in. auto.
+      + destruct (I2 d' H) as [cr' Hc]. exists cr'. apply idx_add_in. auto.
+    - intros cr' d' H. rewrite IX in H. apply idx_add_in in H as [H|H].
+      + destruct (I3 _ _ H) as [N X]. split; [|exact X]. rewrite A. destruct (String.eqb d' d); [discriminate|exact N].
+      + inversion H; subst. split; [rewrite A, String.eqb_refl; discriminate|]. exists a, sub. auto.
+    - intros d' a' H. rewrite A in H. destruct (String.eqb d' d).
+      + inversion H; subst. right. eauto.
+      + eapply I4, H.
+  Qed.
+
+  Lemma xwf_admin xs xs' d na : xwf xs -> meta_mono xs xs' ->
+    admin_rec (st xs) d <> None -> (na = EmptyString \/ exists acc, addr_of c na = Some acc) ->
+    (forall d', admin_rec (st xs') d' = if String.eqb d' d then Some na else admin_rec (st xs) d') ->
+    index xs' = index xs -> xwf xs'.
+  Proof.
+    intros (W & I2 & I3 & I4) MM Old Na A IX. split; [|split; [|split]].
+    - intros d' H. apply MM, W. rewrite A in H. destruct (String.eqb d' d) eqn:E; [|exact H].
+      apply String.eqb_eq in E. subst. exact Old.
+    - intros d' H. rewrite IX. apply I2. rewrite A in H. destruct (String.eqb d' d) eqn:E; [|exact H].
+      apply String.eqb_eq in E. subst. exact Old.
+    - intros cr d' H. rewrite IX in H. destruct (I3 _ _ H) as [N X]. split; [|exact X].
+      rewrite A. destruct (String.eqb d' d); [discriminate|exact N].
+    - intros d' a H. rewrite A in H. destruct (String.eqb d' d).
+      + inversion H; subst. exact Na.
+      + eapply I4, H.
+  Qed.
+
+  Lemma admin_rec_ext s s' : admins s' = admins s -> forall d, admin_rec s' d = admin_rec s d.
+  Proof. intros E d. unfold admin_rec. rewrite E. reflexivity. Qed.
+
+  Lemma mono_step xs o : meta_mono xs (xstep xs o).
+  Proof. intros d. apply (xmeta_monotone c str_of authority addr_of_empty str_of_parses). Qed.
+
+  (** the invariant survives a genesis round trip, and the round trip does not panic *)
+  Lemma genesis_succeeds xs : xwf xs -> exists xs', genesis_roundtrip c str_of xs = (xs', Ok EmptyString).
+  Proof.
+    intros (W & I2 & I3 & I4). unfold genesis_roundtrip, import_all.
+    assert (G : forall gs s idx, (forall g, In g gs -> In g (export xs)) ->
+              exists r, fold_left (import_one c str_of) gs (Some (s, idx)) = Some r).
+    { induction gs as [|g r IH]; intros s idx Sub; [eexists; reflexivity|].
+      change (fold_left (import_one c str_of) (g :: r) (Some (s, idx)))
+        with (fold_left (import_one c str_of) r (import_one c str_of (Some (s, idx)) g)).
+      assert (Hg : In g (export xs)) by (apply Sub; left; reflexivity).
+      unfold export in Hg. apply in_map_iff in Hg as ([cr d] & <- & Hp). simpl.
+      destruct (I3 _ _ Hp) as (N & a & sub & D & Ha).
+      rewrite D. unfold valid_addr. rewrite str_of_parses.
+      assert (Adm : (String.eqb (admin_str (st xs) d) EmptyString
+                     || match addr_of c (admin_str (st xs) d) with Some _ => true | None => false end) = true).
+      { unfold admin_str. destruct (admin_rec (st xs) d) as [ad|] eqn:EA; [|contradiction].
+        destruct (I4 _ _ EA) as [->|[acc ->]]; [reflexivity|apply orb_true_r]. }
+      rewrite Adm. apply IH. intros g0 Hg0. apply Sub. right. exact Hg0. }
+    destruct (G (export xs) (wiped (st xs)) [] (fun g H => H)) as [[s' idx'] E]. rewrite E. eauto.
+  Qed.
+
+  (** A genesis export / import keeps every admin record (for EVERY denom string), the whole ledger,
+      the params and the pool; the bank metadata of every factory denom is RESET to the bare one
+      (InitGenesis calls createDenomAfterValidation, which overwrites what bank's own genesis had
+      restored); the index is re-keyed by the canonical spelling of each creator. *)
+  Theorem genesis_roundtrip_effect xs : xwf xs ->
+    exists xs', genesis_roundtrip c str_of xs = (xs', Ok EmptyString) /\
+      (forall d, admin_rec (st xs') d = admin_rec (st xs) d) /\
+      led (st xs') = led (st xs) /\ params xs' = params xs /\ pool xs' = pool xs /\
+      (forall d, admin_rec (st xs) d <> None -> meta_of (st xs') d = Some 0) /\
+      (forall d, admin_rec (st xs) d = None -> meta_of (st xs') d = meta_of (st xs) d) /\
+      (forall cr d, In (cr, d) (index xs') <->
+         exists cr0 a sub, In (cr0, d) (index xs) /\ deconstruct (addr_of c) d = Some (a, sub) /\ cr = str_of a) /\
+      xwf xs'.
+  Proof.
+    intros X. destruct (genesis_succeeds xs X) as [xs' G]. exists xs'. split; [exact G|].
+    destruct X as (W & I2 & I3 & I4).
+    destruct (genesis_spec c str_of _ _ _ G) as (L & P & Q & In1 & Out1 & Ix).
+    assert (InIdx : forall d, In d (map snd (index xs)) <-> admin_rec (st xs) d <> None).
+    { intros d. split.
+      - intros H. apply in_map_iff in H as ([cr d0] & <- & Hp). exact (proj1 (I3 _ _ Hp)).
+      - intros H. destruct (I2 d H) as [cr Hc]. apply in_map_iff. exists (cr, d). auto. }
+    assert (A : forall d, admin_rec (st xs') d = admin_rec (st xs) d).
+    { intros d. destruct (in_dec string_dec d (map snd (index xs))) as [I|N].
+      - rewrite (proj2 (In1 d I)). apply InIdx in I. unfold admin_str.
+        destruct (admin_rec (st xs) d); [reflexivity|contradiction].
+      - rewrite (proj2 (Out1 d N)). destruct (admin_rec (st xs) d) eqn:E; [|reflexivity].
+        exfalso. apply N, InIdx. rewrite E. discriminate. }
+    assert (Ix' : forall cr d, In (cr, d) (index xs') <->
+         exists cr0 a sub, In (cr0, d) (index xs) /\ deconstruct (addr_of c) d = Some (a, sub) /\ cr = str_of a).
+    { intros cr d. rewrite Ix. simpl. reflexivity. }
+    split; [exact A|]. split; [exact L|]. split; [exact P|]. split; [exact Q|].
+    split; [intros d H; apply In1, InIdx, H|].
+    split.
+    { intros d H. apply Out1. intros I. apply InIdx in I. contradiction. }
+    split; [exact Ix'|].
+    split; [|split; [|split]].
+    - intros d H. rewrite A in H. destruct (in_dec string_dec d (map snd (index xs))) as [I|N].
+      + rewrite (proj1 (In1 d I)). discriminate.
+      + rewrite (proj1 (Out1 d N)). apply W, H.
+    - intros d H. rewrite A in H. destruct (I2 d H) as [cr Hc].
+      destruct (I3 _ _ Hc) as (_ & a & sub & D & _). exists (str_of a). apply Ix'. exists cr, a, sub. auto.
+    - intros cr d H. apply Ix' in H as (cr0 & a & sub & Hc & D & ->). split.
+      + rewrite A. exact (proj1 (I3 _ _ Hc)).
+      + exists a, sub. split; [exact D|apply str_of_parses].
+    - intros d a H. rewrite A in H. eapply I4, H.
+  Qed.
+
+  (** every honest op preserves the invariant *)
+  Lemma xwf_step xs o : honest o -> xwf xs -> xwf (xstep xs o).
+  Proof.
+    intros Hh X. pose proof (mono_step xs o) as MM.
+    destruct o as [o|m|ct w|a cr f v|]; [| contradiction | | |].
+    - (* base ops *)
+      destruct o as [m|f t d x|t d x|f d x].
+      + destruct (xstep_out xs (XBase (OMsg m))) as [xs' [r|e]] eqn:S.
+        2:{ assert (xs' = xs) as E.
+            { unfold xstep_out in S. destruct xs as [s0 p0 i0 q0].
+              destruct m; cbn [Chain.xstep_out step_out st] in S;
+                match type of S with context [deliver ?c0 ?s1 ?m0] => destruct (deliver c0 s1 m0) as [s2 [r1|e1]] eqn:D end;
+                try discriminate; inversion S; subst; try reflexivity;
+                apply deliver_err in D; subst; reflexivity. }
+            unfold xstep, Chain.xstep. fold xstep_out. rewrite S, E. exact X. }
+        assert (Exs : xstep xs (XBase (OMsg m)) = xs') by (unfold xstep, Chain.xstep; fold xstep_out; rewrite S; reflexivity).
+        rewrite Exs in MM |- *. clear Exs.
+        unfold xstep_out in S. destruct m as [cr sub|cr d x|cr d x|cr d na|cr d ok tag]; cbn [Chain.xstep_out step_out] in S.
+        * destruct (deliver (cfg_at c xs) (st xs) (MCreate cr sub)) as [s1 [d1|e1]] eqn:D; [|discriminate].
+          inversion S; subst; clear S.
+          destruct (create_in_own_namespace _ _ _ _ _ _ D) as (_ & _ & (a & Ha & Hdec) & _ & M1 & _).
+          destruct (create_spec _ _ _ _ _ _ D) as (_ & _ & _ & _ & _ & _ & _ & _ & _ & _ & AA).
+          apply (xwf_create xs _ cr r a sub X MM); simpl; auto. rewrite M1. discriminate.
+        * destruct (deliver (cfg_at c xs) (st xs) (MMint cr d x)) as [s1 [r1|e1]] eqn:D; [|discriminate].
+          inversion S; subst; clear S.
+          destruct (mint_spec _ addr_of_empty _ _ _ _ _ _ D) as (a & _ & _ & _ & _ & _ & _ & _ & _ & _ & A).
+          apply (xwf_same xs _ X MM); [apply admin_rec_ext, A|reflexivity].
+        * destruct (deliver (cfg_at c xs) (st xs) (MBurn cr d x)) as [s1 [r1|e1]] eqn:D; [|discriminate].
+          inversion S; subst; clear S.
+          destruct (burn_spec _ addr_of_empty _ _ _ _ _ _ D) as (a & _ & _ & _ & _ & _ & _ & _ & _ & A).
+          apply (xwf_same xs _ X MM); [apply admin_rec_ext, A|reflexivity].
+        * destruct (deliver (cfg_at c xs) (st xs) (MChangeAdmin cr d na)) as [s1 [r1|e1]] eqn:D; [|discriminate].
+          inversion S; subst; clear S.
+          destruct (change_admin_spec _ addr_of_empty _ _ _ _ _ _ D) as (Hadm & Na & ->).
+          apply (xwf_admin xs _ d na X MM); simpl; auto.
+          -- rewrite Hadm. discriminate.
+          -- intros d'. apply admin_rec_set_admin.
+        * destruct (deliver (cfg_at c xs) (st xs) (MSetMeta cr d ok tag)) as [s1 [r1|e1]] eqn:D; [|discriminate].
+          inversion S; subst; clear S.
+          destruct (set_meta_spec _ addr_of_empty _ _ _ _ _ _ _ D) as (_ & ->).
+          apply (xwf_same xs _ X MM); [intros d'; reflexivity|reflexivity].
+      + unfold xstep, Chain.xstep in MM |- *. cbn [Chain.xstep_out step_out] in MM |- *.
+        destruct (if 0 <=? x then send (led (st xs)) f t d x else Err EValidate);
+          apply (xwf_same xs _ X MM); reflexivity || (intros; reflexivity).
+      + unfold xstep, Chain.xstep in MM |- *. cbn [Chain.xstep_out step_out] in MM |- *.
+        destruct (xmint (led (st xs)) t d x); apply (xwf_same xs _ X MM); reflexivity || (intros; reflexivity).
+      + unfold xstep, Chain.xstep in MM |- *. cbn [Chain.xstep_out step_out] in MM |- *.
+        destruct (xburn (led (st xs)) f d x); apply (xwf_same xs _ X MM); reflexivity || (intros; reflexivity).
+    - (* bindings *)
+      unfold xstep, Chain.xstep in MM |- *. cbn [Chain.xstep_out] in MM |- *.
+      destruct (perform c str_of xs ct w) as [xs' [r|e]] eqn:P; cbn [fst] in MM |- *.
+      2:{ apply perform_err in P. subst. exact X. }
+      destruct w as [sub md|d0 x to|d0 x from|d0 na|d0 base valid tag].
+      + destruct (wasm_create_effect _ _ str_of_parses _ _ _ _ _ _ P) as (_ & M0 & A1 & M1 & _ & _ & _ & _ & _ & O & Dec & IX).
+        apply (xwf_create xs _ (str_of ct) r ct sub X MM); auto.
+        intros d'. destruct (String.eqb d' r) eqn:E.
+        * apply String.eqb_eq in E. subst. exact A1.
+        * apply O. intros ->. rewrite String.eqb_refl in E. discriminate.
+      + destruct (wasm_mint_effect _ _ addr_of_empty str_of_parses _ _ _ _ _ _ _ P) as (rc & s1 & _ & _ & _ & _ & _ & _ & _ & _ & A & _ & IX & _).
+        apply (xwf_same xs _ X MM); [apply admin_rec_ext, A|exact IX].
+      + destruct (wasm_burn_effect _ _ addr_of_empty str_of_parses _ _ _ _ _ _ _ P) as (_ & _ & _ & _ & _ & _ & A & _ & IX & _).
+        apply (xwf_same xs _ X MM); [apply admin_rec_ext, A|exact IX].
+      + unfold perform in P. destruct (addr_of c na) as [a|] eqn:Na; [|discriminate].
+        destruct (deliver _ (st xs) (MChangeAdmin (str_of ct) d0 (str_of a))) as [s1 [r1|e1]] eqn:D; [|discriminate].
+        inversion P; subst. destruct (change_admin_spec _ addr_of_empty _ _ _ _ _ _ D) as (Hadm & Hna & ->).
+        apply (xwf_admin xs _ d0 (str_of a) X MM); simpl; auto.
+        * rewrite Hadm. discriminate.
+        * intros d'. apply admin_rec_set_admin.
+      + unfold perform in P. destruct (perform_set_meta (st xs) (str_of ct) d0 base valid tag) as [s1|] eqn:PM; [|discriminate].
+        inversion P; subst. apply perform_set_meta_ok in PM as (_ & _ & _ & ->).
+        apply (xwf_same xs _ X MM); [intros d'; reflexivity|reflexivity].
+    - unfold xstep, Chain.xstep in MM |- *. cbn [Chain.xstep_out] in MM |- *. unfold update_params in *.
+      destruct (valid_addr c cr && String.eqb a cr && v); [|exact X].
+      destruct (String.eqb a authority); [|exact X].
+      apply (xwf_same xs _ X MM); [intros d'; reflexivity|reflexivity].
+    - unfold xstep, Chain.xstep. cbn [Chain.xstep_out].
+      destruct (genesis_roundtrip_effect xs X) as (xs' & G & _ & _ & _ & _ & _ & _ & _ & X').
+      rewrite G. exact X'.
+  Qed.
+
+  Theorem xwf_run ops : forall xs, Forall honest ops -> xwf xs -> xwf (xrun ops xs).
+  Proof.
+    induction ops as [|o r IH]; intros xs F X; [exact X|]. inversion F; subst.
+    change (xrun (o :: r) xs) with (xrun r (xstep xs o)). apply IH; [assumption|]. apply xwf_step; assumption.
+  Qed.
+
+  (** the index is exact: in a state the chain can reach, [denoms_of cr] lists only factory denoms
+      whose creator segment is the account of [cr], and every denom with an admin record is listed *)
+  Theorem index_exact xs : xwf xs ->
+    (forall cr d, In d (denoms_of xs cr) ->
+       admin_rec (st xs) d <> None /\ meta_of (st xs) d <> None /\
+       exists a sub, deconstruct (addr_of c) d = Some (a, sub) /\ addr_of c cr = Some a) /\
+    (forall d, admin_rec (st xs) d <> None -> exists cr, In d (denoms_of xs cr)).
+  Proof.
+    intros (W & I2 & I3 & I4). split.
+    - intros cr d H. unfold denoms_of in H. apply in_map_iff in H as ([cr0 d0] & <- & H).
+      apply filter_In in H as [H E]. simpl in E. apply String.eqb_eq in E. subst cr0. simpl.
+      destruct (I3 _ _ H) as [N X]. split; [exact N|]. split; [apply W, N|exact X].
+    - intros d H. destruct (I2 d H) as [cr Hc]. exists cr. unfold denoms_of. apply in_map_iff.
+      exists (cr, d). split; [reflexivity|]. apply filter_In. split; [exact Hc|]. simpl. apply String.eqb_refl.
+  Qed.
+End Genesis.
+
+(** ---- non-vacuity and witnesses ---- *)
+Module XEx.
+  Open Scope string_scope.
+  (** accounts: alice 1, bob 2, contract 7 ("contract7"), gov 9, module accounts 100 / 101; "ALICE"
+      is another spelling of alice; every other account id n is written in unary ("p" or "n" and |n|
+      times "x"), so that String() of EVERY account parses back to it. *)
+  Fixpoint xs_of (n : nat) : string := match n with O => "" | S k => String "x" (xs_of k) end.
+  Fixpoint count_x (s : string) : option nat :=
+    match s with
+    | "" => Some O
+    | String ch r => if Ascii.eqb ch "x" then option_map S (count_x r) else None
+    end.
+  Definition unary (a : acct) : string :=
+    if (a <? 0)%Z then String "n" (xs_of (Z.to_nat (- a))) else String "p" (xs_of (Z.to_nat a)).
+  Definition of_unary (s : string) : option acct :=
+    match s with
+    | String ch r =>
+      if Ascii.eqb ch "p" then option_map Z.of_nat (count_x r)
+      else if Ascii.eqb ch "n" then
+        match count_x r with Some (S k) => Some (- Z.of_nat (S k))%Z | _ => None end
+      else None
+    | "" => None
+    end.
+  Definition addr (s : string) : option acct :=
+    if String.eqb s "alice" then Some 1%Z else if String.eqb s "ALICE" then Some 1%Z
+    else if String.eqb s "bob" then Some 2%Z else if String.eqb s "contract7" then Some 7%Z
+    else if String.eqb s "gov" then Some 9%Z else if String.eqb s "modtf" then Some 100%Z
+    else if String.eqb s "moddistr" then Some 101%Z else of_unary s.
+  Definition name (a : acct) : string :=
+    if (a =? 1)%Z then "alice" else if (a =? 2)%Z then "bob" else if (a =? 7)%Z then "contract7"
+    else if (a =? 9)%Z then "gov" else if (a =? 100)%Z then "modtf" else if (a =? 101)%Z then "moddistr"
+    else unary a.
+
+  Lemma count_xs n : count_x (xs_of n) = Some n.
+  Proof. induction n as [|k IH]; [reflexivity|]. simpl. rewrite IH. reflexivity. Qed.
+  Lemma of_unary_unary a : of_unary (unary a) = Some a.
+  Proof.
+    unfold unary. destruct (a <? 0)%Z eqn:E.
+    - apply Z.ltb_lt in E. simpl. rewrite count_xs.
+      destruct (Z.to_nat (- a)) as [|k] eqn:N; [lia|]. f_equal. lia.
+    - apply Z.ltb_ge in E. simpl. rewrite count_xs. simpl. f_equal. lia.
+  Qed.
+  Lemma addr_unary a : addr (unary a) = of_unary (unary a).
+  Proof. unfold unary. destruct (a <? 0)%Z; reflexivity. Qed.
+
+  Definition cf : cfg :=
+    {| addr_of := addr; mod_tf := 100; mod_distr := 101;
+       blocked := fun a => Z.eqb a 100 || Z.eqb a 101; fee := [] |}.
+  Definition dc : denom := "factory/contract7/foo".
+  Definition da : denom := "factory/ALICE/up".
+  Definition ops : list xop :=
+    [ XBase (OXMint 7 "ugrain" 50); XBase (OXMint 1 "ugrain" 50);
+      XWasm 7 (WCreate "foo" (Some ("", true, 11)));       (* fee 10 ugrain, paid by the contract *)
+      XWasm 7 (WMint dc 9 "bob");                           (* bob +9, contract +0 *)
+      XWasm 7 (WMint dc 5 "contract7");
+      XWasm 7 (WBurn dc 2 "");
+      XWasm 7 (WBurn dc 1 "bob");                           (* refused: not the contract's own coins *)
+      XWasm 2 (WMint dc 1 "bob");                           (* refused: bob is not the admin *)
+      XWasm 7 (WSetMeta dc "ugrain" true 12);               (* refused: Base differs *)
+      XWasm 7 (WSetMeta dc "" true 12);
+      XParams "alice" "alice" [] true;                      (* refused: alice is not the authority *)
+      XParams "gov" "gov" [("ugrain", 3)] true;
+      XBase (OMsg (MCreate "ALICE" "up"));                  (* fee 3 ugrain now, indexed under "ALICE" *)
+      XBase (OMsg (MSetMeta "ALICE" da true 42));
+      XWasm 7 (WChangeAdmin dc "alice");
+      XWasm 7 (WMint dc 1 "bob");                           (* refused: handed over *)
+      XBase (OMsg (MMint "alice" dc 4));
+      XGenesis;
+      XBase (OMsg (MMint "ALICE" da 6))                     (* the admin string survived as written *)
+    ].
+  Definition x0 : xstate := empty_xstate [("ugrain", 10)].
+  Definition final : xstate := Chain.xrun cf name "gov" ops x0.
+
+  Example laws : addr_of cf "" = None /\ forall a, addr_of cf (name a) = Some a.
+  Proof.
+    split; [reflexivity|]. intros a. simpl. unfold name.
+    destruct (a =? 1)%Z eqn:E1; [apply Z.eqb_eq in E1; subst; reflexivity|].
+    destruct (a =? 2)%Z eqn:E2; [apply Z.eqb_eq in E2; subst; reflexivity|].
+    destruct (a =? 7)%Z eqn:E7; [apply Z.eqb_eq in E7; subst; reflexivity|].
+    destruct (a =? 9)%Z eqn:E9; [apply Z.eqb_eq in E9; subst; reflexivity|].
+    destruct (a =? 100)%Z eqn:E100; [apply Z.eqb_eq in E100; subst; reflexivity|].
+    destruct (a =? 101)%Z eqn:E101; [apply Z.eqb_eq in E101; subst; reflexivity|].
+    rewrite addr_unary. apply of_unary_unary.
+  Qed.
+
+  (** the invariant holds along the whole example history (hypotheses of the genesis theorems) *)
+  Example final_xwf : xwf cf final /\ xwf cf (Chain.xrun cf name "gov" (firstn 17 ops) x0).
+  Proof.
+    destruct laws as [L1 L2].
+    split; apply (xwf_run cf name "gov" L1 L2); try apply xwf_empty; repeat constructor.
+  Qed.
+
+  Example outcomes :
+    map (fun k => Chain.xsucceeded cf name "gov" (Chain.xrun cf name "gov" (firstn k ops) x0) (nth k ops XGenesis))
+        (seq 0 (List.length ops))
+    = [true; true; true; true; true; true; false; false; false; true; false; true; true; true; true; false; true; true; true].
+  Proof. vm_compute. reflexivity. Qed.
+
+  Example honest_ops : Forall honest ops.
+  Proof. repeat constructor. Qed.
+
+  Example final_ledger :
+    supply (led (st final)) dc = 16 /\ bal (led (st final)) 2 dc = 9 /\ bal (led (st final)) 7 dc = 3 /\
+    bal (led (st final)) 1 dc = 4 /\ bal (led (st final)) 100 dc = 0 /\
+    xtotal cf name "gov" (xminted cf name "gov" dc) ops x0 = 18 /\
+    xtotal cf name "gov" (xburned cf name "gov" dc) ops x0 = 2 /\
+    xtotal cf name "gov" (xext cf dc) ops x0 = 0 /\
+    bal (led (st final)) 7 "ugrain" = 40 /\ bal (led (st final)) 1 "ugrain" = 47 /\
+    bal (led (st final)) 101 "ugrain" = 13 /\ pool_of final "ugrain" = 13 /\ supply (led (st final)) "ugrain" = 100.
+  Proof. vm_compute. repeat split. Qed.
+
+  (** the genesis round trip kept both admins (one written in upper case), reset the metadata that
+      the two admins had set (12 and 42) to the bare one, and re-keyed the index canonically *)
+  Example final_control :
+    admin_rec (st final) dc = Some "alice" /\ admin_rec (st final) da = Some "ALICE" /\
+    meta_of (st final) dc = Some 0 /\ meta_of (st final) da = Some 0 /\
+    meta_of (st (Chain.xrun cf name "gov" (firstn 17 ops) x0)) dc = Some 12 /\
+    meta_of (st (Chain.xrun cf name "gov" (firstn 17 ops) x0)) da = Some 42 /\
+    denoms_of (Chain.xrun cf name "gov" (firstn 17 ops) x0) "ALICE" = [da] /\
+    denoms_of final "ALICE" = [] /\ denoms_of final "alice" = [da] /\ denoms_of final "contract7" = [dc] /\
+    params final = [("ugrain", 3)] /\
+    Chain.xcreated cf name "gov" ops x0 = [dc; da].
+  Proof. vm_compute. repeat split. Qed.
+
+  (** the raw msg server accepts the EMPTY creator against the empty admin of a denom nobody created
+      (and of a renounced one) — ValidateBasic in front of it is what refuses it *)
+  Definition never : denom := "factory/alice/never".
+  Example raw_accepts_empty_creator :
+    admin_rec empty_state never = None /\
+    (exists s', raw cf empty_state (MChangeAdmin "" never "bob") = (s', Ok "") /\ admin_rec s' never = Some "bob") /\
+    deliver cf empty_state (MChangeAdmin "" never "bob") = (empty_state, Err EValidate) /\
+    deliver_raw cf empty_state (MChangeAdmin "" never "bob") = (empty_state, Err EValidate).
+  Proof. split; [reflexivity|]. split; [eexists; split; reflexivity|]. split; reflexivity. Qed.
+
+  (** a failed raw Mint by a blocked admin leaves 7 on the module account and in the supply;
+      delivered, the same message leaves nothing *)
+  Definition sblk : state :=
+    st (Chain.xrun cf name "gov"
+          [XBase (OMsg (MCreate "alice" "blk")); XBase (OMsg (MChangeAdmin "alice" "factory/alice/blk" "modtf"))]
+          (empty_xstate [])).
+  Example raw_mint_dirty :
+    let m := MMint "modtf" "factory/alice/blk" 7 in
+    snd (raw cf sblk m) = Err EBlocked /\
+    supply (led (fst (raw cf sblk m))) "factory/alice/blk" = 7 /\
+    bal (led (fst (raw cf sblk m))) 100 "factory/alice/blk" = 7 /\
+    deliver cf sblk m = (sblk, Err EBlocked).
+  Proof. vm_compute. repeat split. Qed.
+End XEx.
